@@ -273,3 +273,77 @@ pub fn interpret_bool(ctx: &Context, code: &str) -> String {
         },
     }
 }
+
+// ---------------------------------------------------------------- source text of prefixed units
+
+pub fn prefix_short(binary: bool, e: i32) -> Option<&'static str> {
+    Some(match (binary, e) {
+        (_, 0) => "",
+        (false, -30) => "q", (false, -27) => "r", (false, -24) => "y", (false, -21) => "z", (false, -18) => "a",
+        (false, -15) => "f", (false, -12) => "p", (false, -9) => "n", (false, -6) => "µ", (false, -3) => "m",
+        (false, -2) => "c", (false, -1) => "d", (false, 1) => "da", (false, 2) => "h", (false, 3) => "k",
+        (false, 6) => "M", (false, 9) => "G", (false, 12) => "T", (false, 15) => "P", (false, 18) => "E",
+        (false, 21) => "Z", (false, 24) => "Y", (false, 27) => "R", (false, 30) => "Q",
+        (true, 10) => "Ki", (true, 20) => "Mi", (true, 30) => "Gi", (true, 40) => "Ti", (true, 50) => "Pi",
+        (true, 60) => "Ei", (true, 70) => "Zi", (true, 80) => "Yi", (true, 90) => "Ri", (true, 100) => "Qi",
+        _ => return None,
+    })
+}
+
+pub fn prefix_long(binary: bool, e: i32) -> Option<&'static str> {
+    Some(match (binary, e) {
+        (_, 0) => "",
+        (false, -30) => "quecto", (false, -27) => "ronto", (false, -24) => "yocto", (false, -21) => "zepto",
+        (false, -18) => "atto", (false, -15) => "femto", (false, -12) => "pico", (false, -9) => "nano",
+        (false, -6) => "micro", (false, -3) => "milli", (false, -2) => "centi", (false, -1) => "deci",
+        (false, 1) => "deca", (false, 2) => "hecto", (false, 3) => "kilo", (false, 6) => "mega", (false, 9) => "giga",
+        (false, 12) => "tera", (false, 15) => "peta", (false, 18) => "exa", (false, 21) => "zetta",
+        (false, 24) => "yotta", (false, 27) => "ronna", (false, 30) => "quetta",
+        (true, 10) => "kibi", (true, 20) => "mebi", (true, 30) => "gibi", (true, 40) => "tebi", (true, 50) => "pebi",
+        (true, 60) => "exbi", (true, 70) => "zebi", (true, 80) => "yobi", (true, 90) => "robi", (true, 100) => "quebi",
+        _ => return None,
+    })
+}
+
+impl Units {
+    /// all source spellings (alias with a prefix in the form the alias accepts) of unit row `i` with `prefix`
+    pub fn spellings(&self, i: usize, prefix: (bool, i32)) -> Vec<String> {
+        let r = &self.rows[i];
+        let mut v = Vec::new();
+        for (alias, short, long) in &r.aliases {
+            if prefix.1 == 0 {
+                v.push(alias.clone());
+                continue;
+            }
+            if *short {
+                if let Some(p) = prefix_short(prefix.0, prefix.1) {
+                    v.push(format!("{}{}", p, alias));
+                }
+            }
+            if *long {
+                if let Some(p) = prefix_long(prefix.0, prefix.1) {
+                    v.push(format!("{}{}", p, alias));
+                }
+            }
+        }
+        v
+    }
+}
+
+/// NaN sign/payload is not meaningful (libm `pow` returns -NaN from Rust and +NaN from Lean's runtime):
+/// every NaN bit pattern in an answer `q <bits> ...` is replaced by the canonical quiet NaN
+pub fn canon_nan(ans: &str) -> String {
+    ans.split(' ')
+        .map(|w| {
+            if w.len() == 16 {
+                if let Ok(b) = u64::from_str_radix(w, 16) {
+                    if f64::from_bits(b).is_nan() {
+                        return "7ff8000000000000".to_string();
+                    }
+                }
+            }
+            w.to_string()
+        })
+        .collect::<Vec<_>>()
+        .join(" ")
+}
